@@ -64,7 +64,7 @@ Section Spec.
     exists picked, S_pick A eqb inner base ls s = Ok picked /\
       forall i, In i picked <-> exists l, nth_error ls i = Some l /\ lab_match s l = true.
   Proof.
-    intros inner base ls s Hnd Hs. destruct s as [|x|xs|a b|bs]; try discriminate; cbn [S_pick lab_match].
+    intros inner base ls s Hnd Hs. destruct s as [|x|xs|a b|bs|a b k]; try discriminate; cbn [S_pick lab_match].
     - exists (seq 0 (length ls)). split; [reflexivity|]. intro i. rewrite in_seq. split.
       + intros [_ Hi]. destruct (nth_error ls i) as [l|] eqn:E; [exists l; auto|].
         apply nth_error_None in E. lia.
